@@ -3,6 +3,8 @@ package main
 // Families for C09 (no panics), C10 (escaping), C11 (built-ins), C12 (Go data).
 
 import (
+	"time"
+	"unicode"
 	"fmt"
 	"html"
 	"math"
@@ -85,6 +87,44 @@ func (g *Gen) untypedTemplate(sc *Scope, depth int) string {
 	return sb.String()
 }
 
+// caseRunes: the letters whose upper, lower or title form has another UTF-8 length, whose title form
+// is not the upper form, and a sample of the remaining cased letters of every block
+func caseRunes() []rune {
+	var out []rune
+	n := 0
+	for r := rune(0x80); r <= 0x1FFFF; r++ {
+		u, l, t := unicode.ToUpper(r), unicode.ToLower(r), unicode.ToTitle(r)
+		if u == r && l == r && t == r {
+			continue
+		}
+		n++
+		if utf8.RuneLen(u) != utf8.RuneLen(r) || utf8.RuneLen(l) != utf8.RuneLen(r) || utf8.RuneLen(t) != utf8.RuneLen(r) || t != u || n%9 == 0 {
+			out = append(out, r)
+		}
+	}
+	return out
+}
+
+// nested: a value nested `depth` levels deep (lists, or objects under the key k)
+func nestedGV(depth int, obj bool) *GV {
+	v := gvInt(1)
+	for i := 0; i < depth; i++ {
+		if obj {
+			v = gvMap("k", v)
+		} else {
+			v = gvList(v)
+		}
+	}
+	return v
+}
+
+func nestedLit(depth int, obj bool) string {
+	if obj {
+		return strings.Repeat("{k: ", depth) + "1" + strings.Repeat("}", depth)
+	}
+	return strings.Repeat("[", depth) + "1" + strings.Repeat("]", depth)
+}
+
 func casesC09(g *Gen) []*Case {
 	var cs []*Case
 	sc := stdScope()
@@ -109,6 +149,27 @@ func casesC09(g *Gen) []*Case {
 	}
 	for _, s := range named {
 		add("named_faults", s, sc.data)
+	}
+	// values nested very deeply, as literals and from the data, printed and dumped
+	for _, depth := range []int{8, 15, 16, 17, 31, 32, 33, 34, 63, 64, 65, 66, 100, 129} {
+		for _, obj := range []bool{false, true} {
+			d := gvMap("d", nestedGV(depth, obj))
+			for _, src := range []string{"@dump(d)", "{{ d }}", "@dump(" + nestedLit(depth, obj) + ")", "{{ " + nestedLit(depth, obj) + " }}", "@each(v in [d])@dump(v, d)@end"} {
+				c := evalCase("deep_values", src, d)
+				c.Oracle = oracleNoCrash
+				c.Timeout = 20 * time.Second
+				cs = append(cs, c)
+			}
+		}
+	}
+	// letters whose case forms have another length in UTF-8 (or a title form of their own), first and not first
+	for _, r := range caseRunes() {
+		for _, str := range []string{string(r), string(r) + "x", "x" + string(r), string(r) + string(r)} {
+			c := evalCase("case_mapping_runes", `{{ s.capitalize() }}|{{ s.upper() }}|{{ s.lower() }}|{{ s.reverse() }}|{{ s.first() }}|{{ s.truncate(1) }}|{{ s.len() }}`, gvMap("s", gvStr(str)))
+			c.Oracle = oracleNoCrash
+			c.NoModel = true
+			cs = append(cs, c)
+		}
 	}
 	// every built-in x receivers x argument tuples
 	for _, fn := range builtinFns {
@@ -406,6 +467,39 @@ func casesC10(g *Gen) []*Case {
 			cs = append(cs, histCase("first_renders_baseline", t2, append([]string{opNew("tpl", ".tw", "", false)}, work...), "the same calls run alone"))
 		}
 	}
+	escC10 := func(x string) string {
+		return strings.NewReplacer("&", "&amp;", "<", "&lt;", ">", "&gt;").Replace(x)
+	}
+	// two different literals of one length whose usual 32-bit checksums are equal, in one render
+	for _, col := range collidingPairs("c10", numShape("<a href='/p?id=", "&x=1'>")) {
+		la, lb := litSrc(col.a, '"'), litSrc(col.b, '"')
+		c := evalCase("checksum_twins", "{{ "+la+" }}|{{ "+lb+" }}|{{ "+la+".raw() }}|{{ "+lb+".raw() }}|{{ ["+lb+", "+la+"].join(\"|\") }}@each(i in [1, 2])|{{ i == 1 ? "+la+" : "+lb+" }}@end", nil)
+		c.Oracle = expectOut(escC10(col.a) + "|" + escC10(col.b) + "|" + col.a + "|" + col.b + "|" + escC10(col.b) + "|" + escC10(col.a) + "|" + escC10(col.a) + "|" + escC10(col.b))
+		c.Tags = []string{col.fn}
+		cs = append(cs, c)
+	}
+	// literals placed in arrays that are then extended twice, sliced, prepended: every array keeps its own literals
+	for n := 1; n <= 9; n++ {
+		var lits, esc []string
+		for k := 0; k < n; k++ {
+			l := fmt.Sprintf("<l%d&'%d'>", k, k)
+			lits = append(lits, litSrc(l, '"'))
+			esc = append(esc, escC10(l))
+		}
+		x, y := "<x&\"1\">", "<y&'2'>"
+		xs := "{{ xs = [" + strings.Join(lits, ", ") + "] }}"
+		j := func(parts ...string) string { return strings.Join(parts, ", ") }
+		all := strings.Join(esc, ", ")
+		c := evalCase("literals_in_extended_arrays", xs+"{{ a = xs.append("+litSrc(x, '"')+") }}{{ c = xs.append("+litSrc(y, '\'')+") }}{{ a }}|{{ c }}|{{ xs }}", nil)
+		c.Oracle = expectOut(j(all, escC10(x)) + "|" + j(all, escC10(y)) + "|" + all)
+		cs = append(cs, c)
+		c = evalCase("literals_in_extended_arrays", xs+"{{ a = xs.prepend("+litSrc(x, '"')+") }}{{ c = xs.prepend("+litSrc(y, '\'')+") }}{{ a }}|{{ c }}|{{ xs }}", nil)
+		c.Oracle = expectOut(j(escC10(x), all) + "|" + j(escC10(y), all) + "|" + all)
+		cs = append(cs, c)
+		c = evalCase("literals_in_extended_arrays", xs+"{{ h = xs.slice(0, 1) }}{{ a = h.append("+litSrc(x, '"')+") }}{{ a }}|{{ xs }}|{{ h }}", nil)
+		c.Oracle = expectOut(j(esc[0], escC10(x)) + "|" + all + "|" + esc[0])
+		cs = append(cs, c)
+	}
 	for n := 0; n <= 1; n++ {
 		sigmaStrings(alpha, n, addTree)
 	}
@@ -462,6 +556,18 @@ func casesC11(g *Gen) []*Case {
 		c.Oracle = nil
 		_ = want
 		cs = append(cs, c)
+	}
+	// capitalize / upper / lower over the letters whose case forms are unusual: the contract is Go's own mapping
+	// of the first character (upper case, not title case), the rest unchanged
+	for _, r := range caseRunes() {
+		for _, str := range []string{string(r), string(r) + "xY", "x" + string(r), string(r) + string(r)} {
+			rs := []rune(str)
+			want := strings.ToUpper(string(rs[0])) + string(rs[1:]) + "|" + strings.ToUpper(str) + "|" + strings.ToLower(str) + "|" + strconv.Itoa(len(rs))
+			c := evalCase("case_mapping_runes", `{{ s.capitalize() }}|{{ s.upper() }}|{{ s.lower() }}|{{ s.len() }}`, gvMap("s", gvStr(str)))
+			c.Oracle = expectOut(want)
+			c.NoModel = true
+			cs = append(cs, c)
+		}
 	}
 	strs := []string{"", "a", "abc", "héllo", "日本語x", " pad ", "ÉCOLE", "straße", "a,b,,c", "xxaxx", "12", "-7", "+3", "1.5", "é",
 		// white space of every kind at the ends: only tab, space, LF, CR are trimmed by default
@@ -812,6 +918,30 @@ func casesC12(g *Gen) []*Case {
 	{
 		c := evalCase("internal_pointers", "{{ r.head }}-{{ r.active }}-{{ r.name }}|{{ r.next.head }}-{{ r.next.active }}-{{ r.next.next ? 1 : 0 }}", gvMap("r", gvNamed(4)))
 		c.Oracle = expectOut("3-3-n|4-3-0")
+		cs = append(cs, c)
+	}
+	// root keys that look like names an engine might keep for itself: only `loop` is reserved
+	for _, k := range []string{"global", "globals", "self", "this", "data", "env", "ctx", "context", "config", "slot", "slots", "page", "layout", "component", "components",
+		"props", "args", "parent", "root", "item", "items", "index", "key", "value", "it", "site", "app", "request", "params", "vars", "scope", "super", "meta", "textwire", "tw",
+		"template", "name", "path", "file", "line", "error", "errors", "message", "len", "str", "raw", "json", "dump", "reserve", "insert", "use", "each", "end", "loops", "Loop", "LOOP",
+		"_", "__", "_loop", "first", "last", "iter", "html", "escape", "debug", "e", "t", "p", "l", "w", "ok", "err", "result", "out", "buf", "tmp", "x0", "arg0", "_0"} {
+		if containsStr([]string{"in", "true", "false", "nil", "if", "else", "for", "end", "each", "use", "insert", "reserve", "dump"}, k) {
+			continue
+		}
+		c := evalCase("reserved_looking_keys", "{{ "+k+" }}|{{ "+k+" + 1 }}", gvMap(k, gvInt(5)))
+		c.Oracle = expectOut("5|6")
+		cs = append(cs, c)
+		c = evalCase("reserved_looking_keys", "{{ "+k+".title }}@each(v in "+k+".list){{ v }}@end", gvMap(k, gvMap("title", gvStr("T"), "list", gvList(gvInt(1), gvInt(2)))))
+		c.Oracle = expectOut("T12")
+		cs = append(cs, c)
+	}
+	// entries of one map that point into one another (a struct and its first field, an array and its first element)
+	{
+		c := evalCase("internal_pointers", "{{ d.name }}|{{ d.profile.name }}-{{ d.profile.age }}|{{ d.again.age }}|{{ d.zname }}|{{ d.profile }}", gvMap("d", gvNamed(5)))
+		c.Oracle = expectOut("Ann|Ann-3|3|Ann|{Age: 3, Name: Ann}")
+		cs = append(cs, c)
+		c = evalCase("internal_pointers", "{{ d.a_profile.name }}{{ d.a_profile.age }}|{{ d.b_name }}|{{ d.c_first }}|{{ d.d_all }}|{{ d.d_all[1] }}", gvMap("d", gvNamed(6)))
+		c.Oracle = expectOut("Bo4|Bo|7|7, 8|8")
 		cs = append(cs, c)
 	}
 	// different struct types that share one name, rendered one after the other in one process
